@@ -716,10 +716,114 @@ func runC07R3(c *Ctx, r *Rep) {
 					continue
 				}
 				id := declID(p, fd)
+				// a guard kept in a flag: `over = b > IntMax-a … if !over { word } ; big`
+				flagGuards := map[types.Object][]*ast.BinaryExpr{}
+				ast.Inspect(fd.Body, func(nd ast.Node) bool {
+					as, ok := nd.(*ast.AssignStmt)
+					if !ok || len(as.Lhs) != 1 || len(as.Rhs) != 1 {
+						return true
+					}
+					be, ok := unparen(as.Rhs[0]).(*ast.BinaryExpr)
+					lid := identOf(as.Lhs[0])
+					if !ok || lid == nil || mentionsLimit(be) == "" {
+						return true
+					}
+					o := p.TypesInfo.Uses[lid]
+					if o == nil {
+						o = p.TypesInfo.Defs[lid]
+					}
+					if o != nil {
+						flagGuards[o] = append(flagGuards[o], be)
+					}
+					return true
+				})
 				ast.Inspect(fd.Body, func(nd ast.Node) bool {
 					is, ok := nd.(*ast.IfStmt)
 					if !ok {
 						return true
+					}
+					// the flag form: decide each comparison stored in the flag against the branch the flag selects
+					if cond, neg := unparen(is.Cond), false; true {
+						if u, ok := cond.(*ast.UnaryExpr); ok && u.Op == token.NOT {
+							cond, neg = unparen(u.X), true
+						}
+						if fid, ok := cond.(*ast.Ident); ok && len(flagGuards[p.TypesInfo.Uses[fid]]) > 0 {
+							big := func(n ast.Node) bool {
+								hit := false
+								if n == nil {
+									return false
+								}
+								ast.Inspect(n, func(m ast.Node) bool {
+									switch y := m.(type) {
+									case *ast.SelectorExpr:
+										if strings.HasPrefix(exprStr(y), "big.") {
+											hit = true
+										}
+									case *ast.CallExpr:
+										if cal := Callee(p.TypesInfo, y); cal != nil && cal.Pkg() == p.Types {
+											if hd := c.Decl(cal); hd != nil && hd.Body != nil {
+												ast.Inspect(hd.Body, func(k ast.Node) bool {
+													if se, ok := k.(*ast.SelectorExpr); ok && strings.HasPrefix(exprStr(se), "big.") {
+														hit = true
+													}
+													return !hit
+												})
+											}
+										}
+									}
+									return !hit
+								})
+								return hit
+							}
+							// where the flag is true: the body (if flag) or what follows / the else (if !flag)
+							var rest ast.Node = is.Else
+							if rest == nil {
+								var after []ast.Stmt
+								ast.Inspect(fd.Body, func(m ast.Node) bool {
+									if blk, ok := m.(*ast.BlockStmt); ok {
+										for i, st := range blk.List {
+											if st == ast.Stmt(is) {
+												after = blk.List[i+1:]
+											}
+										}
+									}
+									return true
+								})
+								rest = &ast.BlockStmt{List: after}
+							}
+							trueIsBig := big(is.Body)
+							if neg {
+								trueIsBig = !big(is.Body) && big(rest)
+							}
+							for _, be := range flagGuards[p.TypesInfo.Uses[fid]] {
+								limit, op := "", be.Op
+								if l := mentionsLimit(be.Y); l != "" && mentionsLimit(be.X) == "" {
+									limit = l
+								} else if l := mentionsLimit(be.X); l != "" && mentionsLimit(be.Y) == "" {
+									limit, op = l, flipOp(op)
+								} else {
+									continue
+								}
+								n++
+								want := map[string][]token.Token{"IntMax": {token.GTR, token.GEQ}, "IntMin": {token.LSS, token.LEQ}}[limit]
+								if !trueIsBig {
+									want = map[string][]token.Token{"IntMax": {token.LSS, token.LEQ}, "IntMin": {token.GTR, token.GEQ}}[limit]
+								}
+								good := false
+								for _, w := range want {
+									if op == w {
+										good = true
+									}
+								}
+								key := fmt.Sprintf("%s|guard %s", id, exprStr(be))
+								if good {
+									r.ok("direction|"+key, be.Pos(), "guard against %s compares in its direction (%s), kept in a flag that selects %s", limit, op, map[bool]string{true: "the promoting branch", false: "the word branch"}[trueIsBig])
+								} else {
+									r.bad("direction|"+key, be.Pos(), "the guard `%s` (kept in a flag) selects %s with `%s` against an expression built on %s: a value beyond %s is on the other side of this comparison, so the overflowing operands take the word path and wrap", exprStr(be), map[bool]string{true: "the promoting branch", false: "the word branch"}[trueIsBig], op, limit, limit)
+								}
+							}
+							return true
+						}
 					}
 					be, ok := unparen(is.Cond).(*ast.BinaryExpr)
 					if !ok {
